@@ -80,9 +80,11 @@ def render_header(r, kw, name, parts, ret, indent):
 
 
 def gen_docstring(r, params, ret, indent, style=None, quote='"""'):
-    style = style or r.choice(STYLES + ("none", "plain"))
+    style = style or r.choice(STYLES + ("none", "plain", "plain", "empty"))
     if style == "none":
         return None, style
+    if style == "empty":  # boundary docstrings: empty, blank, whitespace-only multi-line
+        return "%s%s%s%s" % (TAB * indent, quote, r.choice(("", " ", "\n" + TAB * indent)), quote), style
     if style == "plain":
         text = docgen.header(r, r.randint(1, 2))
         if r.random() < 0.5:
